@@ -106,8 +106,54 @@ impl ObservationMetric<TA, f32> for M {
     }
 }
 
-type Trk = Track<TA, M, f32, NoopNotifier>;
-type Store = TrackStore<TA, M, f32, NoopNotifier>;
+/// Second scripted metric: it does NOT override postprocess_distances (the trait default is used), and it answers
+/// Some((None, None)) for some observation pairs - a metric value without attribute metric and without feature
+/// distance is still a value, and the pair must be reported.
+#[derive(Clone, Debug, Default)]
+struct M2;
+
+impl ObservationMetric<TA, f32> for M2 {
+    fn metric(&self, mq: &MetricQuery<'_, TA, f32>) -> MetricOutput<f32> {
+        let a = mq.candidate_observation.attr().unwrap() as u64;
+        let b = mq.track_observation.attr().unwrap() as u64;
+        match (a + b) % 4 {
+            0 => None,
+            1 => Some((None, if a % 2 == 0 { None } else { Some(a as f32) })),
+            _ => Some((Some((16 * a + b + mq.feature_class) as f32), if (a * b) % 2 == 0 { Some(a as f32) } else { None })),
+        }
+    }
+
+    fn optimize(
+        &mut self,
+        _feature_class: u64,
+        _merge_history: &[u64],
+        _attrs: &mut TA,
+        _features: &mut Vec<Observation<f32>>,
+        _prev_length: usize,
+        _is_merge: bool,
+    ) -> Result<()> {
+        Ok(())
+    }
+}
+
+trait ScriptMetric: ObservationMetric<TA, f32> + Default {
+    fn for_group(grp: u64) -> Self;
+}
+
+impl ScriptMetric for M {
+    fn for_group(grp: u64) -> Self {
+        M { pp: grp == 2 }
+    }
+}
+
+impl ScriptMetric for M2 {
+    fn for_group(_grp: u64) -> Self {
+        M2
+    }
+}
+
+type Trk<MM> = Track<TA, MM, f32, NoopNotifier>;
+type Store<MM> = TrackStore<TA, MM, f32, NoopNotifier>;
 
 #[derive(Clone, Debug)]
 struct TrackSpec {
@@ -139,10 +185,10 @@ impl TrackSpec {
         TrackSpec { id: p[0].parse().unwrap(), grp: p[1].parse().unwrap(), status: p[2].parse().unwrap(), obs }
     }
 
-    fn build(&self) -> Trk {
+    fn build<MM: ScriptMetric>(&self) -> Trk<MM> {
         let mut b = TrackBuilder::new(self.id)
             .attributes(TA { grp: self.grp, status: self.status })
-            .metric(M { pp: self.grp == 2 })
+            .metric(MM::for_group(self.grp))
             .notifier(NoopNotifier);
         for (c, vs) in &self.obs {
             for v in vs {
@@ -169,7 +215,7 @@ fn dec_tracks(s: &str) -> Vec<TrackSpec> {
     s.split(',').filter(|x| !x.is_empty()).map(TrackSpec::dec).collect()
 }
 
-fn dump_store(store: &Store, shards: usize) -> String {
+fn dump_store<MM: ScriptMetric>(store: &Store<MM>, shards: usize) -> String {
     let mut all: Vec<(u64, String)> = vec![];
     for k in 0..shards {
         let sh = store.get_store(k);
@@ -294,6 +340,7 @@ struct Case {
     sched: Vec<String>,    // tokens E<k> X<k> R ; empty + mode free = free running
     recv: u8,
     gated: bool,
+    mv: u8, // metric variant: 1 = M (own postprocess_distances), 2 = M2 (trait default)
 }
 
 fn enc_am(x: &Option<f32>) -> String {
@@ -304,6 +351,14 @@ fn enc_am(x: &Option<f32>) -> String {
 }
 
 fn run_case(c: &Case) {
+    if c.mv == 2 {
+        run_case_g::<M2>(c)
+    } else {
+        run_case_g::<M>(c)
+    }
+}
+
+fn run_case_g<MM: ScriptMetric>(c: &Case) {
     let g = gates();
     g.reset(c.gated);
     // split the schedule: segments after each E, and the post-return part
@@ -334,15 +389,15 @@ fn run_case(c: &Case) {
     let mut after = String::new();
     let mut before = String::new();
     let outcome = guarded(|| {
-        let mut store: Store = TrackStoreBuilder::new(c.shards)
+        let mut store: Store<MM> = TrackStoreBuilder::new(c.shards)
             .default_attributes(TA::default())
-            .metric(M::default())
+            .metric(MM::default())
             .notifier(NoopNotifier)
             .build();
         for t in &c.store {
             let mut plain = t.clone();
             plain.obs.retain(|(_, vs)| !vs.is_empty());
-            store.add_track(plain.build()).unwrap();
+            store.add_track(plain.build::<MM>()).unwrap();
             for (cl, vs) in &t.obs {
                 if vs.is_empty() {
                     store.add(t.id, *cl, None, None, Some(TAUpd)).unwrap();
@@ -351,7 +406,7 @@ fn run_case(c: &Case) {
         }
         before = dump_store(&store, c.shards);
         let (ok, err) = if c.kind == "foreign" {
-            store.foreign_track_distances(c.cands.iter().map(|t| t.build()).collect(), c.cls, c.ob)
+            store.foreign_track_distances(c.cands.iter().map(|t| t.build::<MM>()).collect(), c.cls, c.ob)
         } else {
             store.owned_track_distances(&c.ids, c.cls, c.ob)
         };
@@ -451,8 +506,9 @@ fn run_case(c: &Case) {
         })
         .collect();
     println!(
-        "run kind={} S={} cls={} ob={} store={} cands={} sched={} recv={} mode={} ok={} err={} other_err={} before={} after={} log={} status={}",
+        "run kind={} mv={} S={} cls={} ob={} store={} cands={} sched={} recv={} mode={} ok={} err={} other_err={} before={} after={} log={} status={}",
         c.kind,
+        c.mv,
         c.shards,
         c.cls,
         c.ob as u8,
@@ -695,7 +751,7 @@ fn gen_c10(seed: u64, n: usize, tier: &str) {
         let store = gen_store(&mut rng, nst, 6);
         let cls = if rng.chance(1, 2) { 0 } else { rng.below(3) };
         let ob = rng.chance(1, 2);
-        let mut case = Case { kind: "foreign".into(), shards, cls, ob, store: store.clone(), cands: vec![], ids: vec![], sched: vec![], recv: 0, gated: true };
+        let mut case = Case { kind: "foreign".into(), shards, cls, ob, store: store.clone(), cands: vec![], ids: vec![], sched: vec![], recv: 0, gated: true, mv: 1 + ((si / 4) % 2) as u8 };
         let ccount;
         if owned {
             case.kind = "owned".into();
@@ -746,7 +802,7 @@ fn gen_c10(seed: u64, n: usize, tier: &str) {
         let store = gen_store(&mut rng, nst, 12);
         let cls = if rng.chance(1, 2) { 0 } else { rng.below(3) };
         let ob = rng.chance(1, 2);
-        let mut case = Case { kind: "foreign".into(), shards, cls, ob, store: store.clone(), cands: vec![], ids: vec![], sched: vec![], recv: (bi % 3) as u8, gated: true };
+        let mut case = Case { kind: "foreign".into(), shards, cls, ob, store: store.clone(), cands: vec![], ids: vec![], sched: vec![], recv: (bi % 3) as u8, gated: true, mv: 1 + ((bi / 2) % 2) as u8 };
         let ccount;
         if bi % 2 == 1 && !store.is_empty() {
             case.kind = "owned".into();
@@ -777,7 +833,7 @@ fn gen_c10(seed: u64, n: usize, tier: &str) {
         let mut ids: Vec<u64> = store.iter().map(|t| t.id).collect();
         rng.shuffle(&mut ids);
         ids.truncate(12);
-        let case = Case { kind: "owned".into(), shards, cls: 0, ob: rng.chance(1, 2), store, cands: vec![], ids, sched: vec![], recv: 0, gated: false };
+        let case = Case { kind: "owned".into(), shards, cls: 0, ob: rng.chance(1, 2), store, cands: vec![], ids, sched: vec![], recv: 0, gated: false, mv: 1 };
         run_case(&case);
     }
 }
@@ -807,6 +863,7 @@ fn replay_c10(path: &str) {
             ids: if kind == "owned" { cs.split(',').filter(|x| !x.is_empty()).map(|x| x.parse().unwrap()).collect() } else { vec![] },
             sched: m.get("sched").map(|s| s.split('.').filter(|x| !x.is_empty()).map(|x| x.to_string()).collect()).unwrap_or_default(),
             recv: m.get("recv").map(|x| x.parse().unwrap()).unwrap_or(0),
+            mv: m.get("mv").map(|x| x.parse().unwrap()).unwrap_or(1),
             gated: m.get("mode").map(|x| x == "gated").unwrap_or(true),
         };
         run_case(&case);
